@@ -10,8 +10,8 @@ import (
 )
 
 func init() {
-	Register(&Profile{Name: "durability-par1", Prop: "C04", Weight: 10, Quick: 3000, Thorough: 80000, Fn: func(r *Run) { par1Cycle(r, false) }})
-	Register(&Profile{Name: "write-discipline-par1", Prop: "C02", Weight: 4, Quick: 1000, Thorough: 25000, Fn: func(r *Run) { par1Cycle(r, true) }})
+	Register(&Profile{Name: "durability-par1", Prop: "C04", Weight: 10, Quick: 40000, Thorough: 800000, Fn: func(r *Run) { par1Cycle(r, false) }})
+	Register(&Profile{Name: "write-discipline-par1", Prop: "C02", Weight: 4, Quick: 8000, Thorough: 200000, Fn: func(r *Run) { par1Cycle(r, true) }})
 }
 
 // Truth1 is the reference view of a PAR1 world state.
